@@ -4,6 +4,7 @@ import HdVerif.Proofs.VolumeChannels
 import HdVerif.Proofs.VolumeOnto
 import HdVerif.Proofs.VolumeTie
 import HdVerif.Proofs.VolumeAccess
+import HdVerif.Proofs.VolumeArgs
 /-! # C08  Volume operations never move a voxel in physical space
 
 Property theorems only (helper lemmas: `Proofs/Volume.lean`; model: `Model/Volume.lean`).
@@ -823,6 +824,23 @@ the missing axis is regenerated, T9m), every axis not listed keeps its place, li
 theorem random_permute_spec (axes drawn : List Int) (hv : randomAxesOk axes = true)
     (hr : isRearrangement axes drawn = true) : randomPermuteGood axes drawn = true :=
   randomPermute_good hv hr
+
+/-! ## argument handling (bridges, T9o) -/
+
+/-- **Bridge (T9o)**: on every argument of the enumerated domains the hand-written argument handling of the model gives
+exactly what the current source gives — error kinds included: `swapList` vs `swap_spatial_axes` (a, b in -1..3: the
+permutation handed to `permute_spatial_axes`), `flipItems` vs `flip_spatial` (lists over -1..3: which axes get
+`slice(-1, None, -1)`), `fullPadWidth` + the origin offset of `padAxis` vs `_prepare_pad_width` (ints, flat lists, nested lists
+of 0..4 sublists: the six widths and the offset handed to `_translate_affine_matrix`), and — for ALL lists —
+`permOfList` accepts exactly what `_permute_affine` accepts.  The tables are not empty. -/
+theorem bridge_argument_handling :
+    swapTable.all (fun row => decide (swapList row.1.1 row.1.2 = row.2)) = true ∧
+    flipTable.all (fun row => decide (modelFlip row.1 = row.2)) = true ∧
+    padWidthTable.all (fun row => decide (modelPadWidth row.1 = row.2)) = true ∧
+    (∀ l, (∃ q, permOfList l = .ok q) ↔ l ∈ permuteAccepted) ∧
+    swapTable.length = 25 ∧ 150 ≤ flipTable.length ∧ 400 ≤ padWidthTable.length ∧ permuteAccepted.length = 6 :=
+  ⟨swapList_is_source_table, flipItems_is_source_table, padWidth_is_source_table, permOfList_iff_source,
+   by decide +kernel, by decide +kernel, by decide +kernel, by decide +kernel⟩
 
 /-! ## index items of a foreign type -/
 
